@@ -98,6 +98,9 @@ func (f *Apropos) Call(s *slip.Scope, args slip.List, depth int) slip.Object {
 	} else {
 		for _, pn := range slip.PackageNames() {
 			pkg := slip.FindPackage(string(pn.(slip.String)))
+			if pkg == nil {
+				continue // deleted by another routine since the names were collected
+			}
 			pkg.EachVarVal(func(name string, vv *slip.VarVal) {
 				if vv.Pkg == pkg && strings.Contains(name, pat) {
 					if vv.Const {
